@@ -283,7 +283,13 @@ fn first_touch_race() -> i32 {
     0
 }
 
+/// First thing the program under test writes to stderr.  cargo and rustc share that descriptor and
+/// print (cached) warnings of the crates under test before they start the program; the driver
+/// discards everything up to this line.
+const BEGIN_MARKER: &[u8] = b"#PROGRAM-OUTPUT-BEGINS\n";
+
 fn child(scen_seed: u64) -> i32 {
+    let _ = std::io::stderr().write_all(BEGIN_MARKER);
     let sc = std::sync::Arc::new(generate(scen_seed));
     if sc.first_touch {
         return first_touch_race();
@@ -353,6 +359,7 @@ fn scenario17(scen_seed: u64) -> Vec<Vec<(bool, Option<usize>, Option<usize>, St
 /// real `WinconStream` impls of `Stdout` / `Stderr`.
 fn child17(scen_seed: u64) -> i32 {
     use anstyle_wincon::WinconStream;
+    let _ = std::io::stderr().write_all(BEGIN_MARKER);
     let sc = std::sync::Arc::new(scenario17(scen_seed));
     let run = |sc: &Vec<Vec<(bool, Option<usize>, Option<usize>, String)>>, t: usize| {
         for (err, fg, bg, data) in &sc[t] {
@@ -548,11 +555,14 @@ fn miri_run_role(role: &str, miri_seed: u64, rate: &str, scen_seed: u64) -> std:
 /// a line start with a fixed prefix no record of ours has) so that a rebuild racing with the run is
 /// not mistaken for output of the program under test.
 fn strip_tool_noise(err: Vec<u8>) -> Vec<u8> {
-    const NOISE: [&[u8]; 4] = [
+    // everything before the program's first line is cargo/rustc talking
+    let err = match err.windows(BEGIN_MARKER.len()).position(|w| w == BEGIN_MARKER) {
+        Some(p) => err[p + BEGIN_MARKER.len()..].to_vec(),
+        None => err,
+    };
+    const NOISE: [&[u8]; 2] = [
         b"warning: failed to garbage collect incremental compilation session directory",
         b"    Blocking waiting for file lock",
-        b"   Compiling ",
-        b"    Finished ",
     ];
     if !NOISE.iter().any(|n| err.windows(n.len()).any(|w| w == *n)) {
         return err;
@@ -576,7 +586,7 @@ fn strip_tool_noise(err: Vec<u8>) -> Vec<u8> {
 
 fn native_run(scen_seed: u64) -> std::io::Result<RunResult> {
     let o = Command::new(std::env::current_exe()?).args(["child", &scen_seed.to_string()]).stdin(Stdio::null()).output()?;
-    Ok(RunResult { status: o.status.code().unwrap_or(-1), out: o.stdout, err: o.stderr })
+    Ok(RunResult { status: o.status.code().unwrap_or(-1), out: o.stdout, err: strip_tool_noise(o.stderr) })
 }
 
 fn json_str(s: &str) -> String {
